@@ -318,9 +318,11 @@ def _arg(call, g, name, idx):
     for kw in call.keywords:
         if kw.arg == name:
             return kw.value
-    if idx < len(call.args):
+    if name in getattr(g, "kwonly", ()):       # keyword-only: never positional
+        return g.defaults.get(name)
+    if idx is not None and idx < len(call.args):
         return call.args[idx]
-    return None
+    return g.defaults.get(name) if hasattr(g, "defaults") else None
 
 
 def _check_site(ctx, rep, m, node, status, line):
